@@ -15,7 +15,7 @@ from vf.common import shimmed, real
 from .validators import crc16_reference, CrcStub
 
 KINDS = ("drop", "answer", "short_garbage", "bad_checksum", "exception", "two_fragments", "lone_fragment", "duplicate",
-         "peer_closes", "send_error", "sym_garbage", "late_answer", "dup_fragment")
+         "peer_closes", "send_error", "sym_garbage", "late_answer", "dup_fragment", "dup_exception")
 K = {n: i for i, n in enumerate(KINDS)}
 ERRNOS = (errno.ECONNREFUSED, errno.ENETUNREACH, errno.EHOSTUNREACH, errno.ECONNRESET)
 CONNECT = ("ok", "refused", "unreachable", "never")
@@ -206,6 +206,11 @@ class Scenario:
                 other[5] = 0x89
                 other[-2:] = sum(other[:-2]).to_bytes(2, "big")
                 deliver(sock, bytes(other), d, "garbage")
+            elif name == "dup_exception" and not self.aa55:
+                code = self.exc_range[0]
+                fr = bytes(exception_response(tcp, data, code)) if not tcp else bytes(SBytes(exception_response(tcp, data, code).items).concrete())
+                deliver(sock, fr, d, "exception")
+                deliver(sock, fr, d + script.delay(i, "e", req), "exception-dup")
             elif name == "exception":
                 code = script.small(f"exc{req}_{i}", self.exc_range[0], self.exc_range[1])
                 deliver(sock, bytes(exception_response(tcp, data, code)) if not tcp else
